@@ -3,7 +3,13 @@
   (i)   generic: a plan whose layers are all `LayerOK` merges into a closed, ranked (acyclic) graph in
         which every reported output key is defined — for plans of any size and shape;
   (ii)  the executable checker run on every *real* graph (T3) is sound;
-  (iii) `Closed`/`Ranked` of every modelled layer generator, for all parameters.
+  (iii) `LayerWF` (LayerOK.lean: closed relative to the dependencies' output partitions, ranked, defines exactly
+        the output keys `(name, i)`, `i < npartitions`, and no key of another expression) of every modelled layer
+        generator, for all parameters — `C09_layer_*`; `C09_plan_of_models` connects (iii) to (i);
+  (iv)  the coverage table: every live class of /repo that builds graph structure itself is covered by one of the
+        theorems of (iii) or is listed in `knownUnmodelled` (`C09_layer_classes_covered`, over the GENERATED
+        table), and the source of every covered class is the one the model was validated against
+        (`C09_layer_sources_unchanged`).
   Unambiguity is structural in the model (global keys are (owner, local key)); that real keys embed the
   owner's name is what the exact graph-equality ties (owner tag `@self`) and the per-layer overlap
   check of the harness establish on the code.
@@ -11,6 +17,15 @@
 import DxModel.Plan
 import DxModel.GraphCheck
 import DxModel.Lemmas.ShuffleWF
+import DxModel.LayerOK
+import DxModel.LayerHashes
+import DxModel.Lemmas.LayerFlat
+import DxModel.Lemmas.LayerModels
+import DxModel.Lemmas.LayerRepartition
+import DxModel.Lemmas.LayerBoundary
+import DxModel.Lemmas.LayerMergeTree
+import DxModel.Lemmas.LayerMergeAsof
+import DxModel.Generated.LayerClasses
 namespace Dx
 open Shuffle
 
@@ -53,6 +68,228 @@ theorem C09_layer_taskshuffle_staged (p : Params) (rows : Nat → List Row)
     Closed (stagedTask p) (inputs rows) ∧ Ranked (stagedTask p) (stagedRank p) :=
   ⟨staged_closed p rows harith hnin, staged_ranked p⟩
 
+/-! ## (iii) `LayerWF` of every modelled generator -/
+
+/-- **from layer models to the merged graph**: a plan whose nodes are layer models, each well formed for the
+    partition counts of the nodes it depends on, merges into a closed, acyclic graph defining every output key. -/
+theorem C09_plan_of_models {κ} [Inhabited κ] (nodes : List (MNode κ)) (h : ModelPlanOK nodes) :
+    Closed (merged (nodes.map MNode.toPNode)) (fun _ => none) ∧
+    Ranked (merged (nodes.map MNode.toPNode)) (globalRank (nodes.map MNode.toPNode)) ∧
+    (∀ (n : Nat) (N : MNode κ), nodes[n]? = some N → ∀ i, i < N.spec.nout →
+        (merged (nodes.map MNode.toPNode) (n, N.spec.out i)).isSome) := by
+  have hP := modelPlan_planOK nodes h
+  refine ⟨merged_closed _ hP, merged_ranked _ hP, ?_⟩
+  intro n N hN i hi
+  exact merged_outputs _ hP n N.toPNode (by rw [List.getElem?_map, hN]; rfl) i hi
+
+/-- a well-formed layer model is closed over the outputs of its dependencies and acyclic (the form of Graph.lean) -/
+theorem C09_layer_wf_closed_ranked {κ} (L : LSpec κ) (depN : List Nat) (h : LayerWF L depN) (vals : Nat → Nat → V) :
+    Closed L.task (L.extInputs depN vals) ∧ Ranked L.task L.rank := h.closed_ranked vals
+
+/-- flat layers (one task per output, reading dependency partitions only): in-bounds references suffice;
+    the dict listing is exactly the domain of the layer -/
+theorem C09_layer_flat (ents : List Flat.Ent) (depN : List Nat) (h : Flat.refsOKb ents depN = true) :
+    LayerWF (Flat.spec ents) depN ∧ Listed (Flat.spec ents) (Flat.keys ents) :=
+  ⟨Flat.flat_wf ents depN (Flat.refsOKb_sound ents depN h), Flat.flat_listed ents⟩
+
+/-- StackPartition: for ALL partition counts and ALL outcomes of the per-frame meta check — no hypothesis;
+    `npartitions = sum of the inputs'` outputs -/
+theorem C09_layer_stackpartition (nps : List Nat) (mat : List Bool) :
+    LayerWF (Flat.spec (Flat.stackEnts nps mat)) nps ∧ (Flat.spec (Flat.stackEnts nps mat)).nout = Flat.total nps :=
+  ⟨Flat.flat_wf _ _ (Flat.stack_refsOK nps mat), Flat.stack_length nps mat⟩
+
+/-- StackPartitionInterleaved: well formed iff no input has fewer partitions than the first
+    (they are all `Repartition(df, new_divisions=divs, force=True)` of ONE `divs`) -/
+theorem C09_layer_stackpartition_interleaved (nps : List Nat) (h : ∀ nd ∈ nps, nps.headD 0 ≤ nd) :
+    LayerWF (Flat.spec (Flat.interleavedEnts nps)) nps :=
+  Flat.flat_wf _ _ (Flat.interleaved_refsOK nps h)
+
+theorem C09_layer_stackpartition_interleaved_counterexample :
+    ¬ Flat.RefsOK (Flat.interleavedEnts [2, 1]) [2, 1] := by
+  intro h
+  have := h (Flat.Ent.fn 1 [(0, 1), (1, 1)]) (by decide) (1, 1) (by decide)
+  obtain ⟨nd, h1, h2⟩ := this
+  simp at h1; omega
+
+theorem C09_layer_partitions (P : List Nat) (n : Nat) (h : ∀ p ∈ P, p < n) :
+    LayerWF (Flat.spec (Flat.partitionsEnts P)) [n] := Flat.flat_wf _ _ (Flat.partitions_refsOK P n h)
+
+/-- PartitionsFiltered sources whose `_filtered_task` refers to no key (FromPandas, FromArray, FromMap, ReadCSV,
+    ReadParquet*, Timeseries, Literal): any selection `_partitions`, any dependencies -/
+theorem C09_layer_filtered_source (P : List Nat) (depN : List Nat) :
+    LayerWF (Flat.spec (Flat.filteredEnts P)) depN ∧ (Flat.spec (Flat.filteredEnts P)).nout = P.length :=
+  ⟨Flat.flat_wf _ _ (Flat.filtered_refsOK P depN), by simp [Flat.spec, Flat.filteredEnts]⟩
+
+theorem C09_layer_fusedio (P : List Nat) (step : Nat) (depN : List Nat) :
+    LayerWF (Flat.spec (Flat.fusedEnts P step)) depN := Flat.flat_wf _ _ (Flat.fused_refsOK P step depN)
+
+theorem C09_layer_fromdelayed (P : List Nat) (ndfs : Nat) (h : ∀ p ∈ P, p < ndfs) :
+    LayerWF (Flat.spec (Flat.fromDelayedEnts P)) (List.replicate ndfs 1) :=
+  Flat.flat_wf _ _ (Flat.fromDelayed_refsOK P ndfs h)
+
+theorem C09_layer_toparquet_barrier (n : Nat) : LayerWF (Flat.spec (Flat.barrierEnts n)) [n] :=
+  Flat.flat_wf _ _ (Flat.barrier_refsOK n)
+
+theorem C09_layer_fromscalars (m : Nat) : LayerWF (Flat.spec (Flat.scalarsEnts m)) (List.replicate m 1) :=
+  Flat.flat_wf _ _ (Flat.scalars_refsOK m)
+
+theorem C09_layer_locelement (part n : Nat) (h : part < n) : LayerWF (Flat.spec (Flat.locElementEnts part)) [n] :=
+  Flat.flat_wf _ _ (Flat.locElement_refsOK part n h)
+
+theorem C09_layer_loclist (parts : List Nat) (n : Nat) (h : ∀ p ∈ parts, p < n) :
+    LayerWF (Flat.spec (Flat.locListEnts parts)) [n] := Flat.flat_wf _ _ (Flat.locList_refsOK parts n h)
+
+theorem C09_layer_locslice (start stop n : Nat) (cnone : Bool) (h1 : start ≤ stop) (h2 : stop < n) :
+    LayerWF (Flat.spec (Flat.locSliceEnts start stop cnone)) [n] ∧
+    (Flat.spec (Flat.locSliceEnts start stop cnone)).nout = stop - start + 1 :=
+  ⟨Flat.flat_wf _ _ (Flat.locSlice_refsOK start stop n cnone h1 h2), Flat.locSlice_length start stop cnone h1⟩
+
+theorem C09_layer_resolve_overlapping (ne overlapIdx : List Nat) (eqNext : Nat → Bool) (n : Nat)
+    (hne : ∀ p ∈ ne, p < n) (hn : 1 ≤ n) : LayerWF (Flat.spec (Flat.resolveEnts ne overlapIdx eqNext)) [n] :=
+  Flat.flat_wf _ _ (Flat.resolve_refsOK ne overlapIdx eqNext n hne hn)
+
+/-- Lengths, SeriesQuantileDask, SeriesQuantileTdigest -/
+theorem C09_layer_gather (n : Nat) : LayerWF (Gather.spec n) [n] ∧ Listed (Gather.spec n) (Gather.keys n) :=
+  ⟨Gather.gather_wf n, Gather.gather_listed n⟩
+
+/-- RepartitionQuantiles (with dask's create_merge_tree): for every number of partitions and every tree shape in which
+    no level asks for more keys than the level below has (the float-computed `tree_width` / `tree_groups`, T3) -/
+theorem C09_layer_repartition_quantiles (p : RQ.Params) (h : RQ.levelsOK p = true) : LayerWF (RQ.spec p) [p.n] :=
+  RQ.rq_wf p h
+
+/-- the Blelloch up/down sweep of `prefix_reduction` / `suffix_reduction` (dask_expr/_merge_asof.py), for every
+    number of partitions `n ≤ 2^L`: closed over the frame's partitions, and ranked -/
+theorem C09_layer_scan (p : Scan.Params) (hn : p.n ≤ 2 ^ p.L) (k : Scan.Key) (t : Tsk Scan.Key) (hk : Scan.layer p k = some t) :
+    (∀ r ∈ t.refs, (Scan.layer p r).isSome ∨ ∃ j, r = .src j ∧ j < p.n) ∧ (∀ r ∈ t.refs, Scan.rank p r < Scan.rank p k) :=
+  ⟨Scan.scan_closed p hn k t hk, Scan.scan_ranked p k t hk⟩
+
+/-- MergeAsofIndexed: both reductions plus the merge tasks, for every result of dask's `pair_partitions` that names
+    existing partitions, one entry per left partition (`paramsOK`, checked on the real values) -/
+theorem C09_layer_merge_asof (p : Asof.Params) (h : Asof.paramsOK p = true) : LayerWF (Asof.spec p) [p.nl, p.m] :=
+  Asof.asof_wf p h
+
+/-- GroupByCumulativeFinalizer -/
+theorem C09_layer_groupby_cumulative (p : CumG.Params) (depN : List Nat) (hn : 1 ≤ p.n) (hd : CumG.DepsOK p depN) :
+    LayerWF (CumG.spec p) depN := CumG.cumg_wf p depN hn hd
+
+/-- Blockwise and every class that only changes how the arguments of its one task per partition are written -/
+theorem C09_layer_blockwise (p : Blockwise.Params) (depN : List Nat) (hwf : Blockwise.WF p)
+    (ha : Blockwise.ArgsOK p depN) : LayerWF (Blockwise.spec p) depN := Blockwise.bw_wf p depN hwf ha
+
+/-- without `WF` (a non-broadcast operand with fewer partitions) a reference dangles -/
+theorem C09_layer_blockwise_counterexample :
+    ¬ LayerWF (Blockwise.spec { n := 2, ndim := 2, anyNdim := false, args := [.expr 0 1 2] }) [1] := by
+  intro h
+  rcases h.closed (.out 1) _ rfl (.dep 0 1) (by simp [Tsk.refs, Blockwise.argKey, Blockwise.broadcastDep]) with h1 | h1
+  · simp [Blockwise.spec, Blockwise.layer] at h1
+  · obtain ⟨d, i, nd, h2, h3, h4⟩ := h1
+    simp only [Blockwise.spec, Option.some.injEq, Prod.mk.injEq] at h2
+    obtain ⟨rfl, rfl⟩ := h2
+    simp at h3; omega
+
+theorem C09_layer_cumulative (n : Nat) (hn : 1 ≤ n) : LayerWF (Cum.spec n) [n, n] := Cum.cum_wf n hn
+
+theorem C09_layer_overlap (p : Overlap.Params) (hn : 1 ≤ p.n) : LayerWF (Overlap.spec p) [p.n] := Overlap.ov_wf p hn
+
+theorem C09_layer_treereduce (p : Tree.Params) : LayerWF (Tree.spec p) [p.n] := Tree.tree_wf p
+
+/-- BroadcastJoin, unfiltered -/
+theorem C09_layer_broadcastjoin (p : KJ.Params) (n : Nat) (hP : p.parts = List.range n) :
+    LayerWF (KJ.spec p) (KJ.depN p n) := KJ.bj_wf p n hP
+
+/-- full statement (any selection `_partitions`) is FALSE on the current tree (finding D66): with `_partitions = [2]`
+    the key `(name, 0)` that `__dask_keys__` asks for is not defined -/
+def bjFiltered : KJ.Params := { how := .inner, side := .right, parts := [2], bsize := 1 }
+
+theorem C09_layer_broadcastjoin_filtered_counterexample :
+    ¬ LayerWF (KJ.spec bjFiltered) (KJ.depN bjFiltered 3) := by
+  intro h
+  have := h.outs_defined 0 (by decide)
+  simp [KJ.spec, KJ.layer, bjFiltered] at this
+
+theorem C09_layer_simpleshuffle_wf (p : Params) : LayerWF (simpleSpec p) [p.nin] := simple_wf p
+
+theorem C09_layer_diskshuffle_wf (p : Params) : LayerWF (diskSpec p) [p.nin] := disk_wf p
+
+/-- TaskShuffle: the simple graph below the staging threshold, else the staged one (stage arithmetic T3-checked) -/
+theorem C09_layer_taskshuffle_wf (p : Params) (harith : isStaged p = true → stageArithOK p.nin p.stages p.nsplits = true)
+    (hnin : 0 < p.nin) :
+    LayerWF (if isStaged p then stagedSpec p else simpleSpec p) [p.nin] := by
+  cases hs : isStaged p with
+  | true => simpa using staged_wf p (harith hs) hnin
+  | false => simpa using simple_wf p
+
+theorem C09_layer_repartition_fewer (bs : List Nat) (nin : Nat) (h : Repartition.fewerBoundsOK bs nin = true) :
+    LayerWF (Repartition.fewerSpec bs) [nin] := Repartition.fewer_wf_of_check bs nin h
+
+/-- the hypothesis of `C13_fewer` implies the one above -/
+theorem C09_layer_repartition_fewer_of_boundariesOK (bs : List Nat) (nin : Nat)
+    (h : Repartition.boundariesOK bs nin = true) : LayerWF (Repartition.fewerSpec bs) [nin] :=
+  Repartition.fewer_wf bs nin (Repartition.boundariesOK_le bs nin h)
+
+theorem C09_layer_repartition_more (ns : List Nat) : LayerWF (Repartition.moreSpec ns) [ns.length] :=
+  Repartition.more_wf ns
+
+theorem C09_layer_repartition_size (ns bs : List Nat) (h : Repartition.sizeBoundsOK ns bs = true) :
+    LayerWF (Repartition.sizeSpec ns bs) [ns.length] := Repartition.size_wf_of_check ns bs h
+
+theorem C09_layer_repartition_divisions (st : Repartition.DivState) (nin : Nat)
+    (h : Repartition.divStateOK st nin = true) : LayerWF (Repartition.divSpec st) [nin] :=
+  Repartition.div_wf st nin h
+
+/-- FromGraph, relative to the imported graph (closed without inputs, ranked, bounded, containing `keys`) -/
+theorem C09_layer_fromgraph {κ} (L : Graph κ) (keys : List κ) (rank : κ → Nat) (bound : Nat)
+    (hc : Closed L (fun _ => none)) (hr : Ranked L rank) (hb : ∀ k, (L k).isSome → rank k ≤ bound)
+    (hk : ∀ k ∈ keys, (L k).isSome) : LayerWF (Boundary.fromGraphSpec L keys rank bound) [] :=
+  Boundary.fromGraph_wf L keys rank bound hc hr hb hk
+
+/-- _DelayedExpr, relative to the Delayed's graph; `hself`: nothing in that graph reads the Delayed's own key -/
+theorem C09_layer_delayedexpr {κ} [DecidableEq κ] (d : Boundary.Delayed κ) (rank : κ → Nat) (bound : Nat)
+    (hc : Closed d.graph (fun _ => none)) (hr : Ranked d.graph rank) (hb : ∀ k, (d.graph k).isSome → rank k ≤ bound)
+    (hkey : (d.graph d.key).isSome) (hself : ∀ k t, d.graph k = some t → d.key ∉ t.refs) :
+    LayerWF (Boundary.delayedSpec d rank bound) [] := Boundary.delayed_wf d rank bound hc hr hb hkey hself
+
+/-! ## (iv) the coverage table (GENERATED from the live classes of /repo on every run) -/
+
+/-- classes that build graph structure themselves and have NO Lean layer model: covered only by the proven checker
+    run on their real graphs (T3).  Same list as `PARTIAL` of harness/props/c09.py. -/
+def knownUnmodelled : List String :=
+  [ "HashJoinP2P"            -- needs `distributed` (not installed): `_layer` cannot even be called here
+  , "P2PShuffle"             -- needs `distributed`
+  ]
+
+/-- every class of /repo that overrides a graph-building method is covered by a `C09_layer_*` theorem (or is
+    abstract), or is explicitly listed as unmodelled: a NEW hand-written layer breaks this theorem -/
+theorem C09_layer_classes_covered :
+    ∀ c ∈ Generated.layerClasses, c.covered = true ∨ c.name ∈ knownUnmodelled := by
+  have h : (Generated.layerClasses.all (fun c => c.covered || knownUnmodelled.contains c.name)) = true := by
+    decide +kernel
+  intro c hc
+  have := List.all_eq_true.mp h c hc
+  simp only [Bool.or_eq_true, List.contains_iff_mem] at this
+  exact this
+
+/-- nothing is listed as unmodelled that has a model by now (the list does not rot) -/
+theorem C09_layer_known_unmodelled_exact :
+    ∀ n ∈ knownUnmodelled, ∃ c ∈ Generated.layerClasses, c.name = n ∧ c.covered = false := by
+  have h : (knownUnmodelled.all (fun n => Generated.layerClasses.any (fun c => c.name == n && !c.covered))) = true := by
+    decide +kernel
+  intro n hn
+  have := List.all_eq_true.mp h n hn
+  simp only [List.any_eq_true, Bool.and_eq_true, beq_iff_eq, Bool.not_eq_true'] at this
+  obtain ⟨c, hc, h1, h2⟩ := this
+  exact ⟨c, hc, h1, h2⟩
+
+/-- the graph-building methods of every covered class are the ones the model was validated against -/
+theorem C09_layer_sources_unchanged :
+    ∀ c ∈ Generated.layerClasses, c.covered = true → (c.name, c.srcHash) ∈ committedLayerHashes := by
+  have h : (Generated.layerClasses.all (fun c => !c.covered || committedLayerHashes.contains (c.name, c.srcHash))) = true := by
+    decide +kernel
+  intro c hc hcov
+  have := List.all_eq_true.mp h c hc
+  simp only [hcov, Bool.not_true, Bool.false_or, List.contains_iff_mem] at this
+  exact this
+
 /-! non-vacuity: a two-node plan (a source with two partitions, a consumer aliasing both) is `PlanOK` -/
 namespace C09Example
 def src : PNode Nat :=
@@ -65,6 +302,57 @@ def plan : Plan Nat := [src, cons]
 
 example : (merged plan (1, 1)).isSome = true := by decide
 example : checkOrder [((0 : Nat), []), (1, [0]), (2, [0, 1])] [] = true := by decide
+
+/-! non-vacuity of (iii): a plan of three LAYER MODELS — two sources with 2 and 1 partitions and their row-wise
+    concatenation (the second frame fails the meta check, so its partition goes through `methods.concat`) -/
+def stackNodes : List (MNode Flat.Key) :=
+  [ ⟨Flat.spec (Flat.filteredEnts [0, 1]), []⟩
+  , ⟨Flat.spec (Flat.filteredEnts [0]), []⟩
+  , ⟨Flat.spec (Flat.stackEnts [2, 1] [true, false]), [0, 1]⟩ ]
+
+instance : Inhabited Flat.Key := ⟨.out 0⟩
+
+theorem stackNodes_ok : ModelPlanOK stackNodes := by
+  intro n N hN
+  match n, hN with
+  | 0, hN =>
+    cases hN
+    refine ⟨?_, (C09_layer_filtered_source [0, 1] _).1⟩
+    intro m hm; cases hm
+  | 1, hN =>
+    cases hN
+    refine ⟨?_, (C09_layer_filtered_source [0] _).1⟩
+    intro m hm; cases hm
+  | 2, hN =>
+    cases hN
+    refine ⟨?_, (C09_layer_stackpartition [2, 1] [true, false]).1⟩
+    intro m hm; simp at hm; omega
+  | n + 3, hN => simp [stackNodes] at hN
+
+example : (merged (stackNodes.map MNode.toPNode) (2, Flat.Key.out 2)).isSome = true :=
+  (C09_plan_of_models stackNodes stackNodes_ok).2.2 2 _ rfl 2 (by decide)
+
+example : Flat.stackEnts [2, 1] [true, false] = [.alias 0 0, .alias 0 1, .fn 0 [(1, 0)]] := by decide
+example : Flat.interleavedEnts [2, 2] = [.fn 1 [(0, 0), (1, 0)], .fn 1 [(0, 1), (1, 1)]] := by decide
+example : Flat.locSliceEnts 1 3 true = [.fn 3 [(0, 1)], .alias 0 2, .fn 5 [(0, 3)]] := by decide
+example : Flat.refsOKb (Flat.locSliceEnts 1 3 true) [4] = true := by decide
+example : Flat.fusedEnts [0, 1, 2, 3, 4] 2 = [.lit [0, 1], .lit [2, 3], .lit [4]] := by decide
+example : Flat.resolveEnts [0, 2, 3] [1] (fun _ => false) = [.fn 9 [(0, 0)], .fn 9 [(0, 0), (0, 2)], .alias 0 3] := by decide
+example : Blockwise.WF { n := 2, ndim := 2, anyNdim := false, args := [.expr 0 2 2, .expr 1 1 1, .lit "x"] } := by
+  intro d np nd h hb
+  simp at h
+  rcases h with ⟨rfl, rfl, rfl⟩ | ⟨rfl, rfl, rfl⟩
+  · rfl
+  · simp [Blockwise.broadcastDep] at hb
+example : CumG.DepsOK { n := 3, dF := 0, dR := 1, dL := 2 } [3, 3, 3] := by
+  refine ⟨⟨3, rfl, by decide⟩, ⟨3, rfl, by decide⟩, ⟨3, rfl, by decide⟩⟩
+example : Asof.paramsOK { nl := 2, m := 3, L := 2, tails := true, heads := true, pairs := [[0, 1], [1, 2]] } = true := by decide
+example : Scan.log2ceil 5 = 3 ∧ Scan.log2ceil 4 = 2 ∧ Scan.log2ceil 1 = 0 := by decide
+example : Scan.layer { n := 3, L := 2, rev := false } (.down 0 3) = some (.apply 1 [.down 1 1, .up 0 2]) := rfl
+example : RQ.levelsOK { n := 5, levels := [[2, 1, 1, 1], [2, 2], [2]] } = true := by decide
+example : RQ.layer { n := 5, levels := [[2, 1, 1, 1], [2, 2], [2]] } (.node 1 1) = some (.apply 2 [.node 0 2, .node 0 3]) := rfl
+example : Repartition.fewerBoundsOK [0, 2, 5] 5 = true := by decide
+example : Repartition.sizeBoundsOK [1, 3, 1] [0, 2, 5] = true := by decide
 end C09Example
 
 end Dx
